@@ -190,6 +190,79 @@ def run_lib(desc):
             "violations": viols[:20], "samples": samples}
 
 
+EMBEDDED = {2014: 11000, 2015: 11100, 2016: 11100, 2017: 11300, 2018: 11700, 2019: 12000, 2020: 12300,
+            2021: 12300, 2022: 12300, 2023: 6000, 2024: 3000, 2025: 3000}
+
+
+def judge_cli(txs, cw, hm, cnt, viols, hashes):
+    """One real CLI run under generated config files. Returns the parsed JSON report or None."""
+    from ..clidrv import Sandbox
+    cw = {int(k): v for k, v in cw.items()}
+    hm = {int(k): v for k, v in hm.items()}
+    over = dict(cw)
+    over.update(hm)
+    embedded = EMBEDDED
+    rep = None
+
+    def toml(d):
+        return "[exemptions]\n" + "".join(f'"{y}" = {a}\n' for y, a in d.items()) if d else None
+    eff = dict(embedded)
+    eff.update(over)
+    model = hmrc.evaluate(txs)
+    if model["uncovered"]:
+        return rep
+    disposal_years = sorted(model["years"])
+    with Sandbox(toml(cw), toml(hm)) as sb:
+        sb.write("in.cgt", render_dsl(txs))
+        r = sb.run(["report", "in.cgt", "--format", "json"])
+    cnt["cli_runs"] += 1
+    hashes.add(sha([txs, sorted(cw.items()), sorted(hm.items())])[:16])
+    if r["timeout"]:
+        cnt["cli_timeouts(inconclusive)"] += 1
+        return rep
+    unconfigured = [y for y in disposal_years if y not in eff]
+    case = {"op": "cli", "txs": txs, "cwd_cfg": cw, "home_cfg": hm}
+    if unconfigured:
+        cnt["cli_unconfigured_year_cases"] += 1
+        if r["exit"] == 0:
+            viols.append({"clause": "cli-unconfigured-year-reported", "signature": "cli-unconfigured-year-reported",
+                          "detail": f"years {unconfigured} have disposals but no exemption; exit 0", "case": case})
+        elif r["stdout"]:
+            viols.append({"clause": "cli-partial-output", "signature": "cli-partial-output",
+                          "detail": "stdout not empty on failure", "case": case})
+        return rep
+    if r["exit"] != 0:
+        if "exceeds holding" in r["stderr"]:
+            cnt["cli_residue_refusals(routed to C05)"] += 1
+            return rep
+        viols.append({"clause": "cli-configured-refused", "signature": "cli-configured-refused",
+                      "detail": r["stderr"][:300], "case": case})
+        return rep
+    rep = json.loads(r["stdout"])
+    if over:
+        cnt["cli_override_files_applied"] += 1
+    for y in rep["tax_years"]:
+        sy = int(y["period"][:4])
+        want = Fraction(eff[sy])
+        if Fraction(y["exempt_amount"]) != want:
+            viols.append({"clause": "cli-exemption", "signature": "cli-exemption",
+                          "detail": f"{y['period']}: exempt_amount {y['exempt_amount']} but configuration says {want} "
+                                    f"(cwd {cw}, home {hm})", "case": case})
+        m = model["years"].get(sy)
+        if m is None:
+            viols.append({"clause": "cli-extra-year", "signature": "cli-extra-year", "detail": y["period"], "case": case})
+            continue
+        for key, mv in (("total_gain", m["total_gain"]), ("total_loss", m["total_loss"]), ("net_gain", m["net_gain"])):
+            if Fraction(y[key]) != round_half_away(mv) and abs(Fraction(y[key]) - mv) > Fraction(1, 100):
+                viols.append({"clause": "cli-" + key, "signature": "cli-" + key,
+                              "detail": f"{y['period']}: {key} {y[key]} model {float(mv)!r}", "case": case})
+        if y["disposal_count"] != m["count"]:
+            viols.append({"clause": "cli-disposal-count", "signature": "cli-disposal-count",
+                          "detail": f"{y['period']}: {y['disposal_count']} vs {m['count']}", "case": case})
+
+    return rep
+
+
 def run_cli(desc):
     """Real CLI with a generated ./config.toml and/or ~/.config/cgt-tool/config.toml (never both
     disagreeing on a year); exemption, totals and taxable gain are read back from --format json."""
@@ -214,61 +287,9 @@ def run_cli(desc):
         cw = {y: a for i, (y, a) in enumerate(sorted(over.items())) if where == "cwd" or (where == "split" and i % 2 == 0)}
         hm = {y: a for y, a in over.items() if y not in cw}
 
-        def toml(d):
-            return "[exemptions]\n" + "".join(f'"{y}" = {a}\n' for y, a in d.items()) if d else None
-        eff = dict(embedded)
-        eff.update(over)
-        model = hmrc.evaluate(txs)
-        if model["uncovered"]:
+        rep = judge_cli(txs, cw, hm, cnt, viols, hashes)
+        if rep is None:
             continue
-        disposal_years = sorted(model["years"])
-        with Sandbox(toml(cw), toml(hm)) as sb:
-            sb.write("in.cgt", render_dsl(txs))
-            r = sb.run(["report", "in.cgt", "--format", "json"])
-        cnt["cli_runs"] += 1
-        hashes.add(sha([txs, over, where])[:16])
-        if r["timeout"]:
-            cnt["cli_timeouts(inconclusive)"] += 1
-            continue
-        unconfigured = [y for y in disposal_years if y not in eff]
-        case = {"op": "cli", "txs": txs, "cwd_cfg": cw, "home_cfg": hm}
-        if unconfigured:
-            cnt["cli_unconfigured_year_cases"] += 1
-            if r["exit"] == 0:
-                viols.append({"clause": "cli-unconfigured-year-reported", "signature": "cli-unconfigured-year-reported",
-                              "detail": f"years {unconfigured} have disposals but no exemption; exit 0", "case": case})
-            elif r["stdout"]:
-                viols.append({"clause": "cli-partial-output", "signature": "cli-partial-output",
-                              "detail": "stdout not empty on failure", "case": case})
-            continue
-        if r["exit"] != 0:
-            if "exceeds holding" in r["stderr"]:
-                cnt["cli_residue_refusals(routed to C05)"] += 1
-                continue
-            viols.append({"clause": "cli-configured-refused", "signature": "cli-configured-refused",
-                          "detail": r["stderr"][:300], "case": case})
-            continue
-        rep = json.loads(r["stdout"])
-        if over:
-            cnt["cli_override_files_applied"] += 1
-        for y in rep["tax_years"]:
-            sy = int(y["period"][:4])
-            want = Fraction(eff[sy])
-            if Fraction(y["exempt_amount"]) != want:
-                viols.append({"clause": "cli-exemption", "signature": "cli-exemption",
-                              "detail": f"{y['period']}: exempt_amount {y['exempt_amount']} but configuration says {want} "
-                                        f"(cwd {cw}, home {hm})", "case": case})
-            m = model["years"].get(sy)
-            if m is None:
-                viols.append({"clause": "cli-extra-year", "signature": "cli-extra-year", "detail": y["period"], "case": case})
-                continue
-            for key, mv in (("total_gain", m["total_gain"]), ("total_loss", m["total_loss"]), ("net_gain", m["net_gain"])):
-                if Fraction(y[key]) != round_half_away(mv) and abs(Fraction(y[key]) - mv) > Fraction(1, 100):
-                    viols.append({"clause": "cli-" + key, "signature": "cli-" + key,
-                                  "detail": f"{y['period']}: {key} {y[key]} model {float(mv)!r}", "case": case})
-            if y["disposal_count"] != m["count"]:
-                viols.append({"clause": "cli-disposal-count", "signature": "cli-disposal-count",
-                              "detail": f"{y['period']}: {y['disposal_count']} vs {m['count']}", "case": case})
         if len(samples) < 1 and over:
             samples.append({"cli": "report in.cgt --format json", "cwd_config": cw, "home_config": hm,
                             "years": [(y["period"], y["exempt_amount"]) for y in rep["tax_years"]]})
@@ -282,7 +303,9 @@ def run_shard(desc):
 
 def replay(case):
     if case.get("op") == "cli":
-        return [], {"note": "CLI cases are replayed by re-running the shard; see case body"}
+        vs = []
+        rep = judge_cli(case["txs"], case.get("cwd_cfg") or {}, case.get("home_cfg") or {}, Counter(), vs, set())
+        return vs, {"report_years": [(y["period"], y["exempt_amount"]) for y in (rep or {}).get("tax_years", [])]}
     is_fx = bool(case.get("fx"))
     to_gbp = fxm.converter(fxm.Table(known_codes())) if is_fx else hmrc.gbp_identity
     o = probe().one(lc.calc_case(case["txs"], exemptions=case["exemptions"], year=case.get("year"), fx=case.get("fx")))
